@@ -8,6 +8,7 @@ import (
 	"github.com/gogo/status"
 
 	"google.golang.org/grpc"
+	"google.golang.org/grpc/codes"
 )
 
 func UnaryServerInterceptor(
@@ -24,6 +25,13 @@ func UnaryServerInterceptor(
 	st, ok := status.FromError(err)
 	if !ok {
 		code := extgrpc.GetGrpcCode(err)
+		if code == codes.OK {
+			// A non-nil error cannot be reported with the OK status (and a
+			// status with code OK cannot carry the encoded error): callers
+			// must see a failure. The code attached to the error travels
+			// inside the encoded error.
+			code = codes.Unknown
+		}
 		st = status.New(code, err.Error())
 		enc := errors.EncodeError(ctx, err)
 		st, err = st.WithDetails(&enc)
